@@ -1421,12 +1421,9 @@ func (r *Runtime) RunScript(name, src string) (Value, error) {
 }
 
 func isUncatchableException(e error) bool {
-	for ; e != nil; e = errors.Unwrap(e) {
-		if _, ok := e.(uncatchableException); ok {
-			return true
-		}
-	}
-	return false
+	// errors.As also looks into the trees made by errors.Join() and by fmt.Errorf() with several %w
+	var u uncatchableException
+	return errors.As(e, &u)
 }
 
 func asUncatchableException(v interface{}) error {
